@@ -5,6 +5,7 @@
 #include "json.hpp"
 #include "rng.hpp"
 #include "simfs.hpp"
+#include <cctype>
 #include <map>
 #include <set>
 #include <string>
@@ -43,6 +44,12 @@ void shrink_array(const Json& plan, const std::string& key, std::vector<Json>& o
 
 int worker_main(int argc, char** argv, Scenario& sc);
 
-struct SimAbort { std::string why; };     // thrown by harness code when the simulated process is dead
+struct SimAbort { std::string why; };
+
+// short, class-safe key of an exception message (so that minimisation cannot drift from one exception to another)
+inline std::string msg_key(const std::string& m) {
+    std::string k; for (char ch : m) { if (k.size() >= 48) break; if (std::isalnum(static_cast<unsigned char>(ch))) k += ch; else if (!k.empty() && k.back() != '_') k += '_'; }
+    return k;
+}     // thrown by harness code when the simulated process is dead
 
 } // namespace sim
